@@ -257,7 +257,7 @@ def serialiseWithSize (p : Pkt) (size : Nat) : Option Bytes :=
 /-! ## decoder -/
 
 inductive DErr where
-  | truncated | compression | labelType | questions | ednsTruncated
+  | truncated | compression | labelType | questions | ednsTruncated | nameTooLong
 deriving DecidableEq, Repr
 
 
@@ -313,7 +313,17 @@ def getDomainInto (buf : Bytes) : Nat → Nat → Nat → Except DErr (Name × N
 
 def nameFuel (buf : Bytes) : Nat := (buf.length + 2) * (Generated.Dns.pointerDepthLimit + 2)
 
-def getDomain (buf : Bytes) (off : Nat) : Except DErr (Name × Nat) := getDomainInto buf (nameFuel buf) off 1
+/-- the octets of a name on the wire when written in full: one length octet per label, and the root -/
+def wireLen : Name → Nat
+  | [] => 1
+  | l :: rest => 1 + l.length + wireLen rest
+
+/-- `get_domain`: names longer than `nameOctetLimit` octets are refused (the code counts while it reads and gives up
+    at the first label that passes the limit; the outcome — a name or an error — is the same) -/
+def getDomain (buf : Bytes) (off : Nat) : Except DErr (Name × Nat) :=
+  match getDomainInto buf (nameFuel buf) off 1 with
+  | .ok (d, o) => if wireLen d > Generated.Dns.nameOctetLimit then .error .nameTooLong else .ok (d, o)
+  | .error e => .error e
 
 def parseOpts : Nat → Bytes → Except DErr (List (Nat × Bytes))
   | 0, _ => .ok []
